@@ -175,6 +175,13 @@ def sc_step(V, natoms=1, others="zero", per_coord_delta=False, power=0.25, symbo
         V.fail("no-exception", info=info + ":" + type(ex).__name__)
         return
     V.reach("stepped")
+    # the trial displacement is drawn uniformly from the whole interval [-1, 1) (times the bound): the range REQUESTED
+    # from the generator is part of the sampler, the lockstep reference below only sees the numbers that came back
+    if V.mode == "sym":
+        asked = [(d.get("low"), d.get("high")) for d in E().draws if d["kind"] == "uniform"]
+    else:
+        asked = [(lo, hi) for k, lo, hi in rng.requests if k == "uniform"]
+    V.prove(bool(asked) and all(lo is not None and hi is not None and float(lo) == -1.0 and float(hi) == 1.0 for lo, hi in asked), "zeta-requested-from-[-1,1)", info=info + f":asked={asked[:2]}")
     # ---------------- reference sampler in lockstep on the same draws
     if V.mode == "sym":
         log = [(d["kind"], np.asarray(d["value"], dtype=object)) for d in E().draws]
